@@ -37,6 +37,26 @@ def act(world, peer, action, k):
         raw = peer.emit()
         if raw is not None:
             world.inject(raw, peer.addr)
+    elif action == 'early_app':
+        # a peer that holds the session key (it received the server hello) but does not answer the challenge: whatever it
+        # has queued is thrown away and a sealed datagram with an application message is sent instead, typed APP or
+        # CHALLENGE_RESP.  It never completed the handshake, so the handler must not hear of it.
+        peer.absorb()
+        if c.session_key_bytes is not None and any(m.type == PacketType.CHALLENGE_RESP for m in c.outgoing_messages):
+            c.outgoing_messages = []
+            c.status = Status.CONNECTED
+            p = b'early application data'      # concrete: an arbitrary payload could *be* a well-formed challenge response
+            c.send(p, RetryMode.NONE, None)
+            if bool(symbool('early_two_messages')):
+                c.send(b'and a second message', RetryMode.NONE, None)      # count > 1: every message carries its own type
+            pkt = c._build_packet_impl(world.clock(), False, 0.1)
+            if pkt is not None:
+                if bool(symbool('early_typed_challenge')):
+                    pkt.hdr.pkt_type = PacketType.CHALLENGE_RESP
+                raw = c._encode_packet(pkt)
+                peer.last_datagram = raw
+                world.inject(raw, peer.addr)
+            peer.hostile = True
     elif action == 'dup':
         if peer.last_datagram is not None:
             world.inject(peer.last_datagram, peer.addr)
@@ -155,6 +175,66 @@ R.add('L10.2', l102, lambda tier: [dict(ticks=8, quick=(tier == 'quick'))],
               'no exception leaves the server loop (handler exceptions included)', 'each message is handed to the handler at most once'],
       bounds='8 ticks; client A: 3 x 9 x 6 x 4 (thorough 3 x 9 x 9 x 9) action sequences; client B honest; handler raising in '
              'connect+message | disconnect+update | nowhere (thorough also message only); shutdown after tick 4 or 8', path_cap=400000)
+
+
+# ------------------------------------------------------------------ L10.5 a peer that holds the key but skips the challenge
+def l105(ticks):
+    """client A completes the key exchange (it receives the server hello, so both ends hold the session key) but never
+    answers the challenge: instead it sends sealed datagrams that carry application messages - typed APP or CHALLENGE_RESP -
+    and keeps talking.  It did not complete the handshake: the handler hears nothing of it (no connect, no message, no
+    disconnect, not even at shutdown), while the honest client B is served normally."""
+    pa = pb = None
+    choices = {}
+
+    def script(world, tick):
+        nonlocal pa, pb
+        if tick == 1:
+            pa = loop.Peer(world, A)
+            pb = loop.Peer(world, B)
+            pa.c._sendClientHello()
+            world.inject(pa.emit(), A)
+            pb.c._sendClientHello()
+            world.inject(pb.emit(), B)
+            return
+        act(world, pb, 'reply', tick)
+        if tick == 5:
+            act(world, pb, 'app', tick)
+        if tick == 2:
+            a = 'nothing'
+        elif tick == 3:
+            a = 'early_app'
+        elif tick in (4, 5):
+            a = ['early_app_again', 'reply', 'dup', 'nothing'][choose(4, 'a%d' % tick)]
+        else:
+            a = 'reply'
+        choices[tick] = a
+        if a == 'early_app_again':
+            pa.c.send(b'more of the same', RetryMode.NONE, None)
+            a = 'reply'
+        act(world, pa, a, tick)
+
+    world = loop.World(ticks, script)
+    ri = choose(2, 'handler_raises_in')
+    world.handler.raise_in = [set(), {'connect', 'message'}][ri]
+    world.run()
+    ev = world.handler.events
+    check(world.escaped is None, 'no exception leaves the server loop (handler exceptions included)', escaped=repr(world.escaped))
+    check(getattr(pa, 'hostile', False), 'the peer held the session key and sent application data instead of the challenge response')
+    seen = [e[0] for e in ev if e[0] in ('connect', 'message', 'disconnect') and e[1].addr == A]
+    check(seen == [], 'no handler event for a peer that never answered the challenge', seen=seen, script=dict(choices))
+    check(A not in world.ctxt.connections and all(a != A for t, conns, temps in world.tick_log for a in conns),
+          'a peer that never answered the challenge is never in the connection pool')
+    bad = loop.lifecycle_ok(ev)
+    check(bad == [], 'every client: connect once, then messages, then disconnect once; starting first, shutdown last', violations=bad[:3])
+    check(len([e for e in ev if e[0] == 'connect' and e[1].addr == B]) == 1, 'the other client connects normally whatever the first one does')
+
+
+R.add('L10.5', l105, [dict(ticks=7)],
+      desc='real UdpServerThread.run(): a peer that holds the session key but sends sealed application data (typed APP or CHALLENGE_RESP) '
+           'instead of the challenge response, and keeps talking: no handler event for it, never in the connection pool; the honest client is served',
+      expect=['no handler event for a peer that never answered the challenge',
+              'the peer held the session key and sent application data instead of the challenge response'],
+      bounds='7 ticks; 2 header types x 4 x 4 follow-up actions (more application data / keep-alives / duplicate / nothing); handler raising in connect+message or nowhere; the application payload is a fixed byte string')
 
 
 # ------------------------------------------------------------------ L10.3 tokens
